@@ -354,6 +354,17 @@ class Run:
             missing = [t for t in theorems if t not in printed or t not in checks]
             if missing:
                 problems.append(f"theorems without Print Assumptions/Check pin: {missing}")
+        if not problems and self.tier == "thorough":
+            # independent re-check of the compiled property file and everything it depends on
+            rc, out = sh(["coqchk", "-o", "-silent", "-Q", ".", "Verif", f"Verif.Props.{self.pid}"], cwd=COQ, timeout=6000)
+            summary = out[out.find("CONTEXT SUMMARY"):] if "CONTEXT SUMMARY" in out else out[-1500:]
+            wanted = ["* Axioms: <none>", "relying on type-in-type: <none>", "relying on unsafe (co)fixpoints: <none>",
+                      "whose positivity is assumed: <none>"]
+            self.proof["coqchk"] = " ".join(summary.split())[:600]
+            if rc != 0 or not all(w in summary for w in wanted):
+                problems.append("coqchk: " + summary[-1500:])
+            else:
+                self.notes.append("coqchk -o: Axioms <none>; no type-in-type, unsafe fixpoints or assumed positivity")
         if problems:
             self.proof["ok"] = False
             self.proof["log"] = "\n".join(problems)
@@ -398,6 +409,7 @@ class Run:
             axioms=self.proof.get("axioms", []),
             proof_files=self.proof.get("files", []),
             proof_seconds=self.proof.get("seconds", 0),
+            coqchk=self.proof.get("coqchk", "not run in the quick tier"),
             evaluations=self.corr["cases"],
             distinct_nontrivial=self.corr.get("distinct", 0),
             rule=self.corr.get("rule", ""),
